@@ -366,6 +366,20 @@ def mutate_value(
     return value
 
 
+def peek_attr(obj: Any, attr: str, inplace: bool = False) -> Any:
+    """
+    Read `obj.<attr>` (or `MISSING`) on behalf of a copy-on-write helper:
+    without leaving a trace on `obj` itself (a cached property would otherwise
+    store its freshly computed value on the receiver).
+    """
+    state = getattr(obj, "__dict__", None)
+    held = inplace or not isinstance(state, dict) or attr in state
+    value = getattr(obj, attr, MISSING)
+    if not held:
+        state.pop(attr, None)
+    return value
+
+
 def _check_accepts_attrs(value: Any, expected_type: Optional[Type], attrs: Dict):
     # A value of the wrong type is reported as such, rather than as whatever
     # goes wrong when its attributes are assigned.
